@@ -758,7 +758,7 @@ func (fr *Frame) assertAtCall(calleeName string, args []Val, sig *types.Signatur
 		}
 		t, err := env.Goal(c.Expr)
 		if err != nil {
-			if c.Optional && strings.Contains(err.Error(), "cannot resolve identifier") {
+			if c.Optional && (strings.Contains(err.Error(), "cannot resolve identifier") || strings.Contains(err.Error(), "no such call before this point")) {
 				// a `call?` clause about a variable that is not defined yet at this call site says nothing here
 				continue
 			}
